@@ -277,7 +277,10 @@ CLAIMED = {
             "(unlock_pin_only_after_checks); if do_changepin sends the change-PIN command (CHANGE_PIN / SGX "
             "change-password) at any point, it does so for a PIN that satisfies the policy - relaxed only when "
             "any-PIN was allowed - and nothing before the new-PIN step, the unlock included, sends it "
-            "(changepin_only_policy_pin); the model's PIN policy is the property's (8 alphanumerics with a "
+            "(changepin_only_policy_pin); whenever do_get_pubkeys ends normally its last exchanges are GET_PUBLIC_KEY "
+            "for the six documented paths in the documented order followed only by the disconnection, and the keys "
+            "handed to the output files are the device's answers to exactly those six messages "
+            "(pubkeys_are_device_keys); the model's PIN policy is the property's (8 alphanumerics with a "
             "letter; alphanumerics only when any-PIN is allowed); a policy-violating PIN given to onboard stops "
             "it before the device is contacted; the confirmation loop proceeds only on an explicit yes. The models of do_onboard (up to "
             "the device being onboarded), do_unlock, do_changepin and do_get_pubkeys with both dongle classes are "
